@@ -37,11 +37,14 @@ pub struct NodeCfg {
     pub session_capacity: usize,
     pub packet_filter: bool,
     pub enr_seq: u64,
+    /// the record advertises a UDP port other than the one the node really sends from
+    /// (a NATed peer or a stale record)
+    pub advertise_other_port: bool,
 }
 
 impl NodeCfg {
     pub fn new(ident: usize) -> Self {
-        NodeCfg { ident, request_timeout_ms: 1000, request_retries: 1, session_timeout_ms: 86_400_000, session_capacity: 1000, packet_filter: false, enr_seq: 1 }
+        NodeCfg { ident, request_timeout_ms: 1000, request_retries: 1, session_timeout_ms: 86_400_000, session_capacity: 1000, packet_filter: false, enr_seq: 1, advertise_other_port: false }
     }
 }
 
@@ -195,7 +198,8 @@ impl<X> HWorld<X> {
             IpAddr::V4(v4) => v4.octets(),
             _ => unreachable!(),
         };
-        ident::record(ident::RecSpec { ident: cfg.ident, seq: cfg.enr_seq, ip4: Some((ip, a.port())), ip6: None, pad: 0 })
+        let port = if cfg.advertise_other_port { a.port() + 1000 } else { a.port() };
+        ident::record(ident::RecSpec { ident: cfg.ident, seq: cfg.enr_seq, ip4: Some((ip, port)), ip6: None, pad: 0 })
     }
 
     pub fn key_of(&self, idx: usize) -> CombinedKey {
